@@ -162,6 +162,22 @@ func (holder AnnotationHolder) FindFirstByValue(value string) *Attribute {
 	return nil
 }
 
+// FindFirstParameterBinding returns the first annotation that binds the function parameter with the given name
+// (@Query, @Header, @Path, @Body or @FormField). Annotations of other kinds that merely happen to carry the same
+// value (@Route(items), @Security(token), ...) do not bind parameters and are skipped.
+func (holder AnnotationHolder) FindFirstParameterBinding(paramName string) *Attribute {
+	for _, attrib := range holder.attributes {
+		if attrib.Value != paramName {
+			continue
+		}
+		switch strings.ToLower(attrib.Name) {
+		case "query", "header", "path", "body", "formfield":
+			return &attrib
+		}
+	}
+	return nil
+}
+
 func (holder AnnotationHolder) FindFirstByProperty(key string, value string) *Attribute {
 	for _, attrib := range holder.attributes {
 		if attrib.Properties[key] == value {
